@@ -36,6 +36,7 @@ class FuncGen(ExprGen):
         self.fuel_vars = 0
         self.in_finally = 0
         self.nested = 0
+        self.try_finally_loop_depth: list[int] = []  # loop depth at entry of every enclosing try statement that has a finally
 
     # -- helpers -------------------------------------------------------------------------------------
     def pick_var(self, pred: Any) -> str | None:
@@ -178,7 +179,7 @@ class FuncGen(ExprGen):
     def terminator(self) -> list[str]:
         rng = self.rng
         k = rng.random()
-        if self.loop_depth and k < 0.45 and not self.in_finally:
+        if self.loop_depth and k < 0.45 and not self.in_finally and not self.leaves_try_finally():
             self.tags.add("stmt.break" if k < 0.25 else "stmt.continue")
             return ["break" if k < 0.25 else "continue"]
         if k < 0.75 and not self.in_finally and not self.nested:
@@ -189,6 +190,10 @@ class FuncGen(ExprGen):
         exc = rng.choice(EXC_TYPES[:8] + ["MyErr"])
         self.tags.add("stmt.raise")
         return [f"raise {exc}({self.expr('str', 1)})"]
+
+    def leaves_try_finally(self) -> bool:
+        """Would a break/continue here jump out of a try statement with a finally clause?  (mypyc: "unimplemented")"""
+        return any(d >= self.loop_depth for d in self.try_finally_loop_depth)
 
     def do_if(self, depth: int) -> list[str]:
         rng = self.rng
@@ -316,7 +321,7 @@ class FuncGen(ExprGen):
             self.nogrow.add(ng)
         self.loop_depth += 1
         body = self.block(rng.choice([1, 2, 2, 3]), depth - 1)
-        if rng.random() < 0.3:
+        if rng.random() < 0.3 and not self.leaves_try_finally():
             body += [f"if {self.expr('bool', 1)}:"] + ind([rng.choice(["break", "continue"])])
             self.tags.add("stmt.loopctl")
         self.loop_depth -= 1
@@ -348,12 +353,24 @@ class FuncGen(ExprGen):
     def do_try(self, depth: int) -> list[str]:
         rng = self.rng
         self.tags.add("stmt.try")
+        form = rng.choice(["except", "except", "except_as", "except_multi", "finally", "except_finally", "except_else", "bare"])
+        extra_finally = rng.random() < 0.15
+        has_finally = form in ("finally", "except_finally") or extra_finally
+        if has_finally:
+            self.try_finally_loop_depth.append(self.loop_depth)
+        try:
+            return self._do_try(depth, form, has_finally)
+        finally:
+            if has_finally:
+                self.try_finally_loop_depth.pop()
+
+    def _do_try(self, depth: int, form: str, has_finally: bool) -> list[str]:
+        rng = self.rng
         out = ["try:"] + ind(self.block(rng.choice([1, 2, 3]), depth - 1))
         if rng.random() < 0.25:
             self.scope.push()
             out += ind(self.terminator())
             self.scope.pop()
-        form = rng.choice(["except", "except", "except_as", "except_multi", "finally", "except_finally", "except_else", "bare"])
         if form != "finally":
             excs = rng.sample(EXC_TYPES, rng.choice([1, 1, 2]))
             if form == "bare":
@@ -382,7 +399,7 @@ class FuncGen(ExprGen):
             if form == "except_else":
                 out += ["else:"] + ind(self.block(1, depth - 1))
                 self.tags.add("try.else")
-        if form in ("finally", "except_finally") or rng.random() < 0.15:
+        if has_finally:
             self.in_finally += 1
             out += ["finally:"] + ind(self.block(rng.choice([1, 2]), depth - 1))
             self.in_finally -= 1
